@@ -7,17 +7,42 @@ mkdir -p .cache
 python3 -c "import sys; sys.path.insert(0,'lib'); import vf; vf.coq_ensure_makefile()"
 # -k: a file that does not compile must not keep the others from being built; every check
 # rebuilds and audits its own Props target anyway
-(cd coq && timeout 3000 make -j16 -k) || echo "[setup] warning: some Coq files failed to build"
+(cd coq && timeout 3000 make -j16 -k) > .cache/setup-coq.log 2>&1 || echo "[setup] warning: some Coq files failed to build (see .cache/setup-coq.log)"
+# compiled files left over from an interrupted or concurrent build can be mutually inconsistent
+# ("makes inconsistent assumptions over library ..."): then everything is rebuilt from clean
+if grep -q "inconsistent assumptions" .cache/setup-coq.log; then
+  echo "[setup] inconsistent .vo files: rebuilding the Rocq development from clean"
+  find coq -name '*.vo' -o -name '*.vok' -o -name '*.vos' -o -name '*.glob' -o -name '.*.aux' | xargs rm -f
+  rm -rf .cache/ocaml
+  (cd coq && timeout 3000 make -j16 -k) > .cache/setup-coq.log 2>&1 || echo "[setup] warning: some Coq files failed to build (see .cache/setup-coq.log)"
+fi
+tail -3 .cache/setup-coq.log
 python3 - <<'PY'
 import sys, os
 sys.path.insert(0, "lib"); sys.path.insert(0, ".")
-import vf, importlib, glob
+import vf, importlib, glob, traceback
+failed = []
 for f in sorted(glob.glob("checks/C*.py")):
     pid = os.path.basename(f)[:-3]
-    mod = importlib.import_module("checks." + pid)
-    ctx = vf.Ctx(pid, "quick", 1)
-    if hasattr(mod, "build"):
-        print("[setup] building", pid, flush=True)
-        mod.build(ctx)
+    try:
+        mod = importlib.import_module("checks." + pid)
+        ctx = vf.Ctx(pid, "quick", 1)
+        if hasattr(mod, "build"):
+            print("[setup] building", pid, flush=True)
+            mod.build(ctx)
+    except Exception as e:           # the check itself will report what is wrong when it runs
+        failed.append(pid)
+        print(f"[setup] warning: build of {pid} failed: {str(e)[-600:]}", flush=True)
+if failed:
+    # one more attempt after a clean rebuild of the extraction caches (stale .vo / driver)
+    import shutil, subprocess
+    shutil.rmtree(os.path.join(".cache", "ocaml"), ignore_errors=True)
+    for pid in failed:
+        try:
+            mod = importlib.import_module("checks." + pid)
+            mod.build(vf.Ctx(pid, "quick", 1))
+            print("[setup] second attempt ok:", pid, flush=True)
+        except Exception as e:
+            print(f"[setup] warning: build of {pid} failed again: {str(e)[-300:]}", flush=True)
 PY
 echo "[setup] done"
